@@ -1,5 +1,5 @@
 CONSTANTS
-  MaxTok = 2
+  MaxTok = 1
   MaxStr = 2
   MaxRunes = 2
   MaxPeek = 2
@@ -7,8 +7,8 @@ CONSTANTS
   DecMode = "buffered"
   LineMode = "tracked"
   WithComments = TRUE
-  CommentMode = "eofsafe"
-  Pres = {"ok", "nocmap"}
+  CommentMode = "newlineonly"
+  Pres = {"ok"}
   SpawnMode = "afterchecks"
 SPECIFICATION FairSpec
 PROPERTY Termination
